@@ -70,6 +70,8 @@ public:
 
     void write_entire_contents_to(FILE* file);
 
+    void flush();
+
     void write_entire_contents_to(File& file)
     {
         write_entire_contents_to(file.m_file);
